@@ -354,6 +354,8 @@ def eval_c14(ctx, tr, fs, finished):
     for (bus, lab) in _uniq(tr.accepted()):
         if lab in excused:
             continue
+        if any(lab.startswith(p) for p in ctx.cfg.get('c14_not_about', [])):
+            continue       # (events whose fate is another, known finding's business in this scenario, e.g. F2's refused recursion level)
         ok = all(tr.count(bus, lab, n) == 1 for n in ctx.expected(bus, lab))
         s_ = fs.get(lab)
         done = s_ is not None and s_['status'] == 'completed'
